@@ -912,3 +912,45 @@ def rule_B7p(ctx, prog, label, rule='B7p'):
                                       '%d..%d' % (2 * run[0][1], width - 1) if width and run[0][1] < width // 2 else 'above the last shift'), {}, label))
                 run = [c] if c is not None else []
     return rr
+
+
+# ====================================================================== B2r: the trip counter of a repeated Duff device is refreshed
+
+def rule_B2r(ctx, prog, label, only_funcs=None, rule='B2r'):
+    """`do { ... } while (--n > 0)` consumes its counter.  Where the device sits inside a loop (one pass per row or row pair),
+    n must be (re)initialised inside that loop before the device: a counter set once outside gives the first row the full
+    update and every later row a single pass."""
+    from .symbolic import FuncSym
+    rr = RuleResult(rule, 'the trip counter of a do { } while (--n > 0) device inside a loop is initialised inside that loop, before the device')
+    for f in sorted(prog.all_funcs(), key=lambda f: (f.file, f.line)):
+        if only_funcs is not None and f.name not in only_funcs:
+            continue
+        fs = None
+        for do in f.body.find('DoStmt'):
+            cond = strip(do.kids[1], casts=True)
+            if not (cond is not None and cond.kind == 'BinaryOperator' and cond.op in ('>', '!=') and int_value(cond.kids[1]) == 0):
+                continue
+            dec = strip(cond.kids[0], casts=True)
+            if not (dec.kind == 'UnaryOperator' and dec.op == '--' and strip(dec.kids[0], casts=True).kind == 'DeclRefExpr'):
+                continue
+            nv = strip(dec.kids[0], casts=True)
+            fs = fs or FuncSym(f)
+            outer = [l for l in fs.enclosing_all(do, ('ForStmt', 'WhileStmt', 'DoStmt')) if l is not do]
+            if not outer:
+                continue
+            L = outer[0]           # innermost enclosing loop
+            rr.instances += 1
+            body_nodes = list(L.walk())
+            pos_do = next(i for i, x in enumerate(body_nodes) if x is do)
+            ok = False
+            for i, x in enumerate(body_nodes[:pos_do]):
+                if x.kind == 'VarDecl' and x.id == nv.refid and x.kids:
+                    ok = True
+                if x.kind == 'BinaryOperator' and x.op == '=' and strip(x.kids[0], casts=True).kind == 'DeclRefExpr' and strip(x.kids[0], casts=True).refid == nv.refid:
+                    ok = True
+            rr.ob(ok, dict(function=f.name, counter=nv.ref, loop_line=L.line),
+                  Finding(rule, '%s|%s|%s' % (rule, f.name, nv.ref), do.loc, f.name,
+                          'the counter `%s` of `do { } while (%s)` is not set inside the enclosing loop (line %s) before the device: after the first '
+                          'pass of that loop it is exhausted, so every later row gets one pass of the unrolled body instead of %s' % (nv.ref, pp(cond), L.line, nv.ref), {}, label))
+    rr.require_floor(4 if only_funcs is None else 1, 'counted do-while devices inside loops')
+    return rr
